@@ -177,9 +177,23 @@ func bsWorldGen(r *Run, rng *Rng, w *bsWorld, steps int, allowRm bool) {
 				g.dcAtBlock[bn] = g.nextDC
 				evs := mkDep() + " " + mkDep() + " " + mkDep()
 				// statements: 1 block row, then 34 per deposit (33 tree writes + its own row)
-				for _, k := range []int{1 + 34 + 7, 1 + 34 + 20} {
-					if obs := w.exec(r, fmt.Sprintf("blk %d %d %s", bn, k, evs)); obs == "ok" {
+				for i, k := range []int{1 + 7, 1 + 34 + 7, 1 + 34 + 20} { // inside the first deposit's tree update, then twice inside the second's
+					obs := w.exec(r, fmt.Sprintf("blk %d %d %s", bn, k, evs))
+					if obs == "ok" {
 						break
+					}
+					if i == 0 && obs == "err fault" && !g.staleIdx {
+						// before the retry a block arrives whose first deposit count is one PAST the first deposit that just failed to
+						// be stored (a gap): the syncer has to halt, whatever its in-memory frontier went through
+						first := g.nextDC - 3
+						gapTok := fmt.Sprintf("b;%d;%d;%d;%d;%s;%d;%s;%s;%s;%d;%s;%s;%s;%s", 0, first+1, rng.Intn(2), bsNet(rng), hx(rng.Bytes(20)), bsNet(rng),
+							hx(rng.Bytes(20)), bsAmount(rng), bsMeta(rng), 1700000000+bn, hx(rng.Bytes(32)), hx(rng.Bytes(20)), hx(rng.Bytes(rng.Intn(12))), "0")
+						if o := w.exec(r, fmt.Sprintf("blk %d - %s", bn+1, gapTok)); o != "err inconsistent" {
+							r.Fail("[C14,C01] after a failed store of deposit "+fmt.Sprint(first)+" a block starting at deposit "+fmt.Sprint(first+1)+" (a gap) was answered with "+o+" instead of halting", append([]string{"new"}, w.lines...))
+						}
+						r.Count("branch:directed-gap-after-failed-store")
+						w.checkHaltedQueries(r)
+						w.exec(r, "restart") // a restart clears the in-memory flag; the tables are consistent
 					}
 				}
 				if !w.lastBlockStored(bn) {
